@@ -197,7 +197,8 @@ def run_case(case, ctx):
         nclients = rng.choice([1, 2, 2, 3])
         clients = [Client(wfd, tracker.pid, clog) for _ in range(nclients)]
         # names with separator characters (':' splits the request line), spaces and a long one
-        styles = ["res{i}.bin", "res{i}.bin", "re:s:{i}.bin", "res {i} x.bin", "res{i}:", "r" * 180 + "{i}.bin"]
+        # ... and names that merely START like a tracked folder's path (dir0.lock next to the folder dir0)
+        styles = ["res{i}.bin", "res{i}.bin", "re:s:{i}.bin", "res {i} x.bin", "res{i}:", "r" * 180 + "{i}.bin", "dir{i}.lock", "dir{i}x.bin"]
         files = [os.path.join(d, rng.choice(styles).format(i=i)) for i in range(rng.randint(1, 4))]
         folders = [os.path.join(d, f"dir{i}") for i in range(rng.choice([0, 1, 1, 2]))]
         inside = {}
